@@ -686,7 +686,7 @@ class C19(Prop):
 
     def generate(self, tier, rnd):
         cases = systematic(rnd, tier)
-        n = 2500 if tier == "quick" else 60000
+        n = 2500 if tier == "quick" else 300000
         for _ in range(n):
             cases.append(gen_program(rnd, max_stmts=rnd.choice([5, 9, 12]), max_depth=3,
                                      hash_range=rnd.choice([2, 8, 64])))
@@ -753,6 +753,16 @@ class C19(Prop):
                 "append": any(s[0] == "append" for s in c["prog"]),
                 "self_append": any(s[0] == "append" and ["q", s[1]] in s[2] for s in c["prog"]),
                 "nested_sched": "sched" in c["kinds"],
+                "pure_sched": "pure" in c["kinds"],
+                # the library saw some set argument in another order than the one written down
+                "set_reordered": repr(seen) != repr(c["prog"][:len(seen)]),
+                "requires_remove": ("none" if not any(s[0] == "requires" and s[3] for s in seen) else
+                                    "raised" if (seen and seen[-1][0] == "requires" and seen[-1][3] and err)
+                                    else "all succeeded"),
+                "scheduler_remove": ("none" if not any(s[0] == "remove" for s in seen) else
+                                     "raised" if (seen and seen[-1][0] == "remove" and err) else "all succeeded"),
+                "partial_effect": bool(err == 1 and len(snaps) >= 2 and seen[-1][0] == "requires"
+                                       and snaps[-1]["req"] != snaps[-2]["req"]),
             }
             for s in c["prog"]:
                 res["tags"].setdefault("has_" + s[0], True)
